@@ -1091,10 +1091,12 @@ impl Engine {
         }
         n.data[o..o + acc].copy_from_slice(&data[..acc]);
         n.touched = true;
-        if res.is_ok() {
+        if res.is_ok() || acc > 0 {
+            // (a write that stored something is a write, also when it then ran out of room)
+            n.mtime_missed = acc > 0 && stamps.is_empty();
             n.mtime_ok = stamps;
         } else {
-            // failed part-way: the old or a new value is acceptable
+            // failed before taking a byte: the old or a new value is acceptable
             let mut s = stamps;
             n.mtime_ok.append(&mut s);
         }
